@@ -14,7 +14,9 @@ MANIFEST = {
              "forms, combine, combine_lower_dict, replace, assignment, deletion) the two-dict representation keeps its "
              "invariant and is in simulation with the abstract map keyed by folded name in which the last write wins and "
              "keeps its spelling; lookup/len/iteration/KeyError/== corollaries (lookup_spec, len_spec, iter_spec, raises_spec, "
-             "eq_spec, eq_dict_spec, last_write_wins) and c16_judge_accepts_model: the run-time judge obsOk accepts the model's "
+             "eq_spec, eq_dict_spec, eq_history, last_write_wins, pop_spec, setdefault_spec, update_spec), c16_object_history / "
+             "copy_independent / source_independent / replace_shares on the object-level machine (variables are handles to "
+             "cells; replace(other) shares) and c16_judge_accepts_model: the run-time judge obsOk accepts the model's "
              "observation of every register after every operation sequence. The model is tied to utils.CaseInsensitiveDict by a per-operation differential check of the "
              "full observation vector of every live map, and the Lean judge obsOk is evaluated on the implementation's "
              "observations."),
